@@ -218,6 +218,9 @@ fn programs(ctx: &Ctx, small: bool) -> Vec<(u64, String)> {
 			v.push((100_000 + mi as u64 * 1000 + j, format!("method:{}#{j}", m.name)));
 		}
 	}
+	for j in 0..(if small { 2 } else { ctx.pick(24, 200) }) {
+		v.push((5_000_000 + j, format!("restored-inconsistent:Conv#{j}")));
+	}
 	let per_i = if small { 1 } else { ctx.pick(8, 60) };
 	for (ii, d) in reg::indicators().iter().enumerate() {
 		for j in 0..per_i {
@@ -234,6 +237,34 @@ thread_local! {
 	static LAST_CFG: std::cell::RefCell<Option<Value>> = std::cell::RefCell::new(None);
 }
 
+/// a serialized state whose parts disagree (fewer weights than window values in a Conv): derived Deserialize accepts it and
+/// the default build walks the shorter of the two; code under the feature must not trust the two lengths to be equal
+fn restored_inconsistent_program(id: u64, seed: u64, h: &mut H) {
+	let mut r = Rng::new(seed ^ id << 7 ^ 0xC0);
+	let m = 2 + r.below(5) as usize;
+	let w: Vec<V> = (0..m).map(|_| gen::q(0.25 + r.f()) as V).collect();
+	let xs: Vec<In> = (0..m + 10).map(|_| In::V(gen::q(10.0 * r.f()) as V)).collect();
+	let md = reg::method("Conv");
+	let Ok(mut inst) = (md.ctor)(&Par::W(w), &xs[0]) else { return };
+	for x in &xs[..m + 2] {
+		h.op("next", &out_words(&inst.next(x)));
+	}
+	let Ok(mut v) = inst.ser() else { return };
+	let keep = r.below(m as u64) as usize;
+	if let Some(ws) = v.get_mut("weights").and_then(Value::as_array_mut) {
+		ws.truncate(keep);
+	}
+	h.op("truncate-weights", &[m as u64, keep as u64]);
+	match inst.de(&v) {
+		Err(_) => h.op("rejected", &[]),
+		Ok(mut x) => {
+			for y in &xs[m + 2..] {
+				h.op("next-restored", &out_words(&x.next(y)));
+			}
+		}
+	}
+}
+
 fn run_program(id: u64, seed: u64, h: &mut H, small: bool, per_i: usize) {
 	if id < 100_000 {
 		window_program(id, seed, h, small);
@@ -241,6 +272,8 @@ fn run_program(id: u64, seed: u64, h: &mut H, small: bool, per_i: usize) {
 		let mi = ((id - 100_000) / 1000) as usize;
 		let ms = reg::methods();
 		method_program(&ms[mi], id, seed, h, small);
+	} else if id >= 5_000_000 {
+		restored_inconsistent_program(id, seed, h);
 	} else {
 		let ii = ((id - 1_000_000) / 1000) as usize;
 		let j = ((id - 1_000_000) % 1000) as usize;
